@@ -79,6 +79,18 @@ def gen(rng, tier):
             if c["C"] == 2 and c["K"] == 2 and len(c["rows"]) >= 3 and set(u for r in c["rows"] for u in r) == set(range(n)):
                 return c
     cases.append({"multi": [multi_inst(n) for n in (3, 5)]})
+    # HISTORIES on one Provenance object held by one fitted importance object: score, swap two different rows IN PLACE (the array
+    # keeps its shape), score again -- the second result is the Shapley value of the EDITED provenance
+    for _ in range({"quick": 4, "search": 6, "thorough": 20}[tier]):
+        while True:
+            c1 = rand_case(rng, n=rng.choice([3, 3, 4]), shape="hyper")
+            pairs = [(i, j) for i in range(len(c1["rows"])) for j in range(i) if c1["rows"][i] != c1["rows"][j]]
+            if pairs and c1["n"] >= 2:
+                break
+        i, j = rng.choice(pairs)
+        rows2 = list(c1["rows"])
+        rows2[i], rows2[j] = rows2[j], rows2[i]
+        cases.append({"multi": [c1, dict(c1, rows=rows2)], "history": True})
     cases.append(rand_case(rng, n=1, K=2, C=1, shape="onerow"))
     return cases
 
@@ -98,10 +110,18 @@ def corpus():
 
 
 # ----------------------------------------------------------------------------- implementation side
-def run_one(c):
+def run_one(c, ctx=None):
     import numpy as np
     from datascope.importance.shapley import ShapleyImportance
-    prov = c09.make_prov({"n": c["n"], "rows": c["rows"]})
+    if ctx is not None and "prov" in ctx:
+        # second step of a history: the SAME provenance object (held by the same fitted importance object) is edited in place
+        from datascope.utility.provenance import Conjunction
+        prov, units = ctx["prov"], ctx["prov"]._units
+        for r, row in enumerate(c["rows"]):
+            if row != ctx["rows"][r]:
+                prov[r] = Conjunction(*[units[u] == 1 for u in row])
+    else:
+        prov = c09.make_prov({"n": c["n"], "rows": c["rows"]})
     nrows = len(c["rows"])
     X = np.arange(nrows, dtype=float).reshape(-1, 1)
     if c["utility"] == "accuracy":
@@ -123,8 +143,13 @@ def run_one(c):
     ds = {"n_train": nrows, "n_test": len(c["dists"]), "labels": c["labels"], "D": [[float(x) for x in d] for d in c["dists"]],
           "U": c["U"], "nulls": c["nulls"], "y_test": [c["labels"][0]] * len(c["dists"])}
     k = c["K"]
-    imp = ShapleyImportance(method="neighbor", utility=nn.make_utility(ds), nn_k=k, nn_distance=nn.make_distance(ds))
-    imp.fit(X, np.array(c["labels"]), provenance=prov)
+    if ctx is not None and "imp" in ctx:
+        imp = ctx["imp"]
+    else:
+        imp = ShapleyImportance(method="neighbor", utility=nn.make_utility(ds), nn_k=k, nn_distance=nn.make_distance(ds))
+        imp.fit(X, np.array(c["labels"]), provenance=prov)
+    if ctx is not None:
+        ctx.update({"prov": prov, "imp": imp, "rows": [list(r) for r in c["rows"]]})
     s = np.asarray(imp.score(np.arange(ds["n_test"], dtype=float).reshape(-1, 1), np.array(ds["y_test"])), dtype=float)
     assert s.shape == (c["n"],), s.shape
     out = {"scores": [v.hex() for v in s.tolist()]}
@@ -141,7 +166,8 @@ def run_one(c):
 
 def run_impl(c):
     if "multi" in c:
-        return {"multi": [run_one(i) for i in c["multi"]]}
+        ctx = {} if c.get("history") else None
+        return {"multi": [run_one(i, ctx) for i in c["multi"]]}
     return run_one(c)
 
 
